@@ -7,7 +7,10 @@
 package libp2pquic
 
 //@ func (l *listener) Accept
-//@ prop C10
+//@ prop C10 C04
+// C04: an accepted QUIC connection that was wrapped (it carries a resource scope) and is not returned has either been
+// offered to a waiting hole punch (the iteration reached the hole-punch section) or been torn down through closeWithError, which releases the scope
+//@ loop 0 iteration ncalls(addConn, 0) == prev(ncalls(addConn, 0)) + 1 ==> ghost.done(c.scope) || ncalls(Lock, 0) == prev(ncalls(Lock, 0)) + 1
 //@ ensures result1 == nil && old(l.transport.gater) != nil ==> called(InterceptAccept, 0) && ret(InterceptAccept, 0, 0) &&
 //@         called(InterceptSecured, 0) && ret(InterceptSecured, 0, 0) &&
 //@         arg(InterceptAccept, 0, 1) == result0 && arg(InterceptSecured, 0, 3) == result0 &&
@@ -27,4 +30,26 @@ package libp2pquic
 //@ ensures result1 == nil ==> called(DialQUIC, 0) && ret(DialQUIC, 0, 1) == nil && remotePubKey != nil && result0 == c &&
 //@         c.remotePubKey == remotePubKey && c.remotePeerID == p && c.quicConn == ret(DialQUIC, 0, 0)
 //@ ensures result1 == nil ==> recvd(keyCh) == 1 && remotePubKey == recvval(keyCh)
+//@ noframe
+
+// C04: the connection's own teardown releases its resource scope (and is the only teardown Accept may use for a
+// wrapped connection); a failed wrap releases the scope it opened
+//@ func (c *conn) closeWithError
+//@ prop C04
+//@ ensures called(Done, 0) && arg(Done, 0, 0) == old(c.scope)
+//@ ensures ghost.done(old(c.scope))
+//@ ensures c.scope == old(c.scope)
+//@ ensures forall x *listener :: !fresh(x) ==> x.transport == old(x.transport)
+//@ ensures forall x *transport :: !fresh(x) ==> x.gater == old(x.gater)
+//@ noframe
+
+//@ func (l *listener) wrapConn
+//@ prop C04
+//@ ensures result1 != nil ==> result0 == nil
+//@ ensures result1 != nil && called(OpenConnection, 0) && ret(OpenConnection, 0, 1) == nil ==> ghost.done(ret(OpenConnection, 0, 0))
+//@ ensures result1 != nil && called(wrapConnWithScope, 0) ==> ghost.done(arg(wrapConnWithScope, 0, 2))
+//@ ensures result1 == nil ==> result0 != nil && called(wrapConnWithScope, 0) && ret(wrapConnWithScope, 0, 1) == nil
+//@ ensures forall x *listener :: !fresh(x) ==> x.transport == old(x.transport)
+//@ ensures forall x *transport :: !fresh(x) ==> x.gater == old(x.gater)
+//@ noinline wrapConnWithScope
 //@ noframe
